@@ -55,6 +55,7 @@ type interpreter struct {
 	bypass             *ssa.Function // call the real body of this intercepted function once
 	vfs                map[string]value // harness file table (vrt.WriteFile), per path
 	cwd                string
+	pipes              []*pipeObj // stub pipes created on this path
 	summaries          map[*ssa.Function]*fnSummary
 	inSummary          bool
 }
